@@ -188,7 +188,7 @@ PROVED = {
  "C14": "what the whitespace pass removes and what it leaves alone: inert text is untouched, markers and their adjacent whitespace go, no marker survives; "
         "and for WHOLE documents with any number of sentinels in any placement (C14_whole_document): Buffer.Bytes returns exactly the text runs, each "
         "trimmed on the left iff an after-sentinel immediately precedes it and on the right iff a before-sentinel immediately follows, no sentinel survives, "
-        "every non-blank byte is kept in order. That the emitter plants the sentinels where the layout rules say is covered by the denotation runs.",
+        "every non-blank byte is kept in order, and a second pass changes nothing. That the emitter plants the sentinels where the layout rules say is covered by the denotation runs.",
  "C15": "the emitter writes the same text with and without a source map, at any position, after any earlier output (simulation over all trees); CLI and LSP "
         "code are the same text for every input; every accepted file is header ++ items' own code, so a template's code does not depend on its siblings. "
         "Determinism itself is by construction of the model (a function of the bytes) and checked on the implementation by the run.",
